@@ -151,6 +151,8 @@ def check_graph(ctx, res, drv, adj, pending):
         pending.append((f"stab.same {su.stab_args(st, 'a')} {su.stab_args(graph_stab(adj), 'b')}", inp, "graph_to_stabilizer"))
     except Exception as e:  # noqa: BLE001
         res.violation(f"graph_to_stabilizer:raises:{err_class(e)}", "graph_to_stabilizer raised", input=inp)
+    # the edge list along which graph -> density applies its CZ gates (theorem graph_to_density_same_state_simple_graph is about this list)
+    pending.append((f"stab.edges n={n} a={tu.bits(adj)}", dict(inp, impl=",".join(f"{u}.{v}" for u, v in g.edges) or "-"), "edges:model"))
     # graph -> density, density -> graph
     if n <= 5:
         try:
@@ -254,6 +256,12 @@ def flush(res, drv, pending):
                 res.branch(["s2g:" + ("ok:h=%d" % (0 if rep.get("h") == "-" else len(rep.get("h").split(","))) if model[0] == "ok" else "err:" + rep["_raw"].split()[-1])])
             else:
                 res.exact_break("state_to_graph", input=inp, impl=list(impl), model=rep["_raw"][:300])
+        elif what == "edges:model":
+            impl = inp.pop("impl")
+            if rep["_status"] == "ok" and rep.get("edges") == impl:
+                res.traces_validated += 1
+            else:
+                res.exact_break("graph_to_density:edge-list", input=inp, impl=impl, model=rep["_raw"][:300])
         elif what == "stabilizer_to_graph:model":
             impl = inp.pop("impl")
             model = ("ok", rep.get("a")) if rep["_status"] == "ok" else ("err", rep["_raw"].split()[1])
